@@ -8,7 +8,13 @@
    order (add_gene writes both, nothing deletes), so they are one association
    list here whose entries carry the gene and its current expression level;
    the harness checks list(_genes) == list(_expression) on every observation.
-   Gene names and descriptions are integers.  Values are Python configuration
+   A gene name is a Python str; the two dicts are keyed by it, so two names are
+   the same gene exactly when they are the same string ("model", "model ",
+   " model", "Model", "model\n" are five different names).  A name is stored
+   here as ONE integer, [name_code] of its code points (below), which is injective on
+   strings (Proofs.name_code_inj): "same integer" is "same spelling", and
+   every definition and theorem below that speaks of names n : Z speaks of
+   arbitrary strings.  Descriptions are integers.  Values are Python configuration
    values [val]: None, booleans, integers, finite floats (as their exact
    fraction) and strings (code points).  They are never computed with, only
    stored, handed to the callback and compared for identity; in particular
@@ -62,6 +68,32 @@ Definition val_eqb (a b : val) : bool :=
   | VStr s, VStr s' => zl_eqb s s'
   | _, _ => false
   end.
+
+(* ---- gene names ----------------------------------------------------------
+   the code of a str.  [raw_code]: its code points (0 .. 0x10FFFF) as the digits
+   1 .. base of a little-endian bijective numeral; the empty name is 0.  The
+   ten names "g0" .. "g9" (the plain names of the generated cases) get the
+   codes 0 .. 9, every other string 10 + its raw code: still one integer per
+   string and one string per integer (Proofs.name_code_inj). *)
+Definition name_base : Z := 1114112.
+Fixpoint raw_code (s : list Z) : Z :=
+  match s with
+  | [] => 0
+  | c :: r => (c + 1) + name_base * raw_code r
+  end.
+Definition plain_index (s : list Z) : option Z :=
+  match s with
+  | [g; d] => if (g =? 103) && (48 <=? d) && (d <=? 57) then Some (d - 48) else None
+  | _ => None
+  end.
+Definition name_code (s : list Z) : Z :=
+  match plain_index s with
+  | Some i => i
+  | None => 10 + raw_code s
+  end.
+
+(* the plain names of the generated cases: "g0" .. "g9" *)
+Definition gn (i : Z) : Z := name_code [103; 48 + i].
 
 Record gene := mkGene {
   g_name : Z; g_value : val; g_type : gtype; g_desc : Z;
@@ -455,7 +487,11 @@ Definition mrec_row (m : mrec) : list Z :=
   m_gene m :: val_code (m_orig m) ++ val_code (m_new m) ++
   [reason_code (m_reason m); b2z (m_approved m)].
 
-Definition ctx_b : list Z := [0; 2; 4; 6; 8].
+(* the second context every genome is expressed in: g0 g2 g4 g6 g8 and three
+   names that are other spellings of g1, g3, g5: "g1 ", "G3", " g5" *)
+Definition ctx_b : list Z :=
+  map name_code [[103; 48]; [103; 50]; [103; 52]; [103; 54]; [103; 56];
+                 [103; 49; 32]; [71; 51]; [32; 103; 53]].
 
 (* everything about one genome; log entries from position [from] on *)
 Definition detail_rows (G : genome) (from : nat) : list (list Z) :=
